@@ -589,6 +589,27 @@ def height0(out, ss):
 
 
 # ---------------------------------------------------------------------------
+# digest of an observation (Model.Sim.obs_hash)
+
+P61 = 2305843009213693951
+
+
+def obs_hash(j):
+    h = 7
+    stack = [common.norm_obs(j)]
+    while stack:
+        x = stack.pop()
+        if isinstance(x, list):
+            h = (h * 1000003 + 2 + 12345) % P61
+            h = (h * 1000003 + len(x) + 12345) % P61
+            stack.extend(reversed(x))
+        else:
+            h = (h * 1000003 + 1 + 12345) % P61
+            h = (h * 1000003 + x + 12345) % P61
+    return h
+
+
+# ---------------------------------------------------------------------------
 # shared runner
 
 def run_sim_cases(rep, prop, opts, n, rng, broken, extra_cases=()):
@@ -633,18 +654,25 @@ def run_sim_cases(rep, prop, opts, n, rng, broken, extra_cases=()):
             mon_fail.append({"case": strip(c), "meta": c["_meta"], "case_index": i, **b})
         if o.get("hang"):
             continue
-        coq_cases.append((i, c_case(c), common.to_obsv(o["obs"])))
+        coq_cases.append((i, c_case(c), "(OZ %d)" % obs_hash(o["obs"])))
         for ob in o["obs"][:-1]:
             steps += len(ob[0])
             for nd in ob[1]:
                 dist.add(json.dumps(nd[1:]))
     t1 = time.time()
+    pre = "From EC Require Import Model.Msgs Model.Replica Model.ReplicaRun Model.Sim."
     try:
-        mm, samp = common.run_model_cases(prop, "From EC Require Import Model.Msgs Model.Replica Model.ReplicaRun Model.Sim.",
-                                          "Model.Sim.sim_run", coq_cases, shard_size=opts.get("shard", 1),
-                                          sample_ids=[0], timeout=opts.get("model_timeout", 2400))
+        mmh, _ = common.run_model_cases(prop, pre, "Model.Sim.sim_run_hash", coq_cases, shard_size=opts.get("shard", 2),
+                                        timeout=opts.get("model_timeout", 2400))
+        # full observations: of the disagreeing schedules (to locate the difference) and of one sample
+        full_ids = sorted(mmh)[:3] + ([coq_cases[0][0]] if coq_cases else [])
+        by_id = {i: inp for (i, inp, _) in coq_cases}
+        full = [(i, by_id[i], common.to_obsv(outs[i]["obs"])) for i in dict.fromkeys(full_ids)]
+        mmf, samp = common.run_model_cases(prop + "_full", pre, "Model.Sim.sim_run", full, shard_size=1,
+                                           sample_ids=full_ids[-1:], timeout=opts.get("model_timeout", 2400))
     except RuntimeError as e:
         raise common.MachineryError(str(e)[:1500])
+    mm = {i: mmf.get(i) for i in mmh}
     if mm:
         broken.append(f"correspondence vh sim vs Model.Sim.sim_run: {len(mm)} of {len(coq_cases)} schedules disagree")
     return {"cases": cases, "outs": outs, "mm": mm, "samp": samp, "mon_fail": mon_fail, "kinds": kinds, "stats": stats,
@@ -652,6 +680,8 @@ def run_sim_cases(rep, prop, opts, n, rng, broken, extra_cases=()):
 
 
 def first_diff(model_obs, impl_obs):
+    if model_obs is None:
+        return None
     m = model_obs if isinstance(model_obs, list) else common.norm_obs(model_obs)
     im = common.norm_obs(impl_obs)
     for k, (a, b) in enumerate(zip(m, im)):
